@@ -1008,7 +1008,7 @@ impl SimStream {
             tcp_key(ip, port),
             io::ErrorKind::ConnectionRefused,
             |net| {
-                net.next_client_port += 1;
+                net.next_client_port = if net.next_client_port == u16::MAX { 50000 } else { net.next_client_port + 1 };
                 let lip: IpAddr = match ip {
                     IpAddr::V4(_) => "127.0.0.1".parse().unwrap(),
                     IpAddr::V6(_) => "::1".parse().unwrap(),
@@ -1100,7 +1100,7 @@ impl TcpListener {
             let rt = rt();
             let mut net = rt.net.borrow_mut();
             loop {
-                net.next_port += 1;
+                net.next_port = if net.next_port >= 49999 { 40000 } else { net.next_port + 1 };
                 let p = net.next_port;
                 if !net.listeners.contains_key(&tcp_key(ip, p)) {
                     break p;
